@@ -57,6 +57,41 @@ def refactor_twins(prop: str, root: str) -> List[Tuple]:
     return out
 
 
+def mechanical_variants() -> List[Tuple]:
+    """Whole-package behaviour-preserving rewrites (sa/mechanical.py): every check must be silent on each."""
+    from . import mechanical
+    out = [(f"mechanical rewrite of the whole package: {m}", "@mech", m, 1, None) for m in mechanical.MODES if m != "rename"]
+    out += [(f"mechanical rewrite of the whole package: rename locals (seed {sd}, p={p})", "@mech", "rename", (sd, p), None)
+            for sd, p in ((1, 1.0), (2, 0.5), (3, 0.5))]
+    out.append(("mechanical rewrite of the whole package: mirror + augexpand + rename + reorder", "@mech", "all", (4, 0.7), None))
+    return out
+
+
+def _one_mech(prop, root, name, mode, arg, base_keys) -> Dict[str, Any]:
+    from . import mechanical
+    tmp = tempfile.mkdtemp(prefix="basana-sa-variant-")
+    try:
+        shutil.copytree(os.path.join(root, "basana"), os.path.join(tmp, "basana"), ignore=shutil.ignore_patterns("__pycache__"))
+        if mode == "all":
+            for m in ("mirror", "augexpand", "reorder"):
+                mechanical.rewrite(tmp, m)
+            mechanical.rewrite(tmp, "rename", arg[0], arg[1])
+        elif mode == "rename":
+            mechanical.rewrite(tmp, "rename", arg[0], arg[1])
+        else:
+            mechanical.rewrite(tmp, mode)
+        keys, err = _keys(prop, tmp, use_cache=False)
+    finally:
+        shutil.rmtree(tmp, ignore_errors=True)
+    if err:
+        return {"name": name, "status": "failed", "why": f"behaviour-preserving rewrite made the analysis fail: {err}"}
+    new_keys = keys - base_keys
+    if new_keys:
+        return {"name": name, "status": "failed",
+                "why": f"behaviour-preserving rewrite raised {sorted(r for r, _ in new_keys)}: {sorted(k for _, k in new_keys)[0][:120]}"}
+    return {"name": name, "status": "silent"}
+
+
 def seeded_variants(prop: str, already: List[Tuple]) -> List[Tuple]:
     """Seeded changes written against this property (seeded/<prop>-n) that the hand-written variant list does not mention yet:
     each must keep firing the rule recorded for it in its meta.json (`tools/seed.py detect`)."""
@@ -90,6 +125,8 @@ def _one(args) -> Dict[str, Any]:
     name, relpath, old, new, expect = variant
     if relpath == "@patch":
         return _one_patch(prop, root, name, old, expect, base_keys)
+    if relpath == "@mech":
+        return _one_mech(prop, root, name, old, new, base_keys)
     src_path = os.path.join(root, relpath)
     try:
         with open(src_path) as f:
@@ -184,7 +221,7 @@ def variants_for(prop: str) -> List[Tuple]:
 def run_for(prop: str, root: str, jobs: int = 16) -> Result:
     res = Result()
     vs = variants_for(prop)
-    vs = vs + seeded_variants(prop, vs) + refactor_twins(prop, root)
+    vs = vs + seeded_variants(prop, vs) + refactor_twins(prop, root) + mechanical_variants()
     res.total = len(vs)
     if not vs:
         return res
